@@ -483,6 +483,112 @@ func runC10(c *Ctx) {
 		c.Fail("C10.R3", "PTR handler", ldr.Pos(), "no handler registered for PTR")
 	}
 
+	// ---------- R8: the host validator judges the text it is given ----------
+	if vh := c.P.Func("rules", "validateHost"); vh != nil {
+		c.Rule("C10.R8", "WIRE", "validateHost validates the text it is handed, untrimmed", 1)
+		g := NewGate(c.P)
+		g.Inline = inlineOnly()
+		g.Eval(vh)
+		u := g.U
+		host := g.ParamExprs(vh)[0]
+		bad := ""
+		// what is cut into labels at the dots must be the argument (or, label by label, a remainder
+		// carried around a loop): not a shortened copy of it
+		n := 0
+		for _, e := range u.tab {
+			if e.Op != "call" || len(e.Args) < 2 || !isStr(e.Args[1], ".") {
+				continue
+			}
+			switch e.Aux {
+			case "strings.Split", "strings.SplitN", "strings.Cut", "strings.Index", "strings.IndexByte":
+			default:
+				continue
+			}
+			n++
+			for leaf := range u.Leaves(e.Args[0]) {
+				base := leaf
+				for base.Op == "slice" && base.Args[2] == nil {
+					base = base.Args[0] // a suffix: the rest behind a label
+				}
+				if base != host && base.Op != "loopphi" && base.Op != "extract" {
+					bad = "the labels are taken from " + clip(u.Show(leaf), 80) + ", not from the text handed in: a caller that already removed one trailing dot (the PTR handler) now lets \"name..\" through, and the stored value is not a well-formed name"
+				}
+			}
+		}
+		if n == 0 {
+			bad = "UNDECIDED: no split of the name at its dots found"
+		}
+		c.Check(bad == "", "C10.R8", shortFn(vh)+": labels of the argument itself", vh.Pos(), "no trimming of the argument before its labels are checked", bad)
+	}
+
+	// ---------- R9: the value part is everything behind the second ';' ----------
+	{
+		c.Rule("C10.R9", "WIRE", "the full form is split into at most three parts: the value may contain ';'", 1)
+		g := NewGate(c.P)
+		g.Inline = inlineOnly()
+		g.Eval(ldr)
+		u := g.U
+		sv := g.ParamExprs(ldr)[0]
+		bad, n := "", 0
+		for _, e := range u.tab {
+			if e.Op != "call" || len(e.Args) < 2 || e.Args[0] != sv {
+				continue
+			}
+			switch e.Aux {
+			case "strings.SplitN":
+				n++
+				if k, ok := e.Args[len(e.Args)-1].IntVal(); !ok || k != 3 {
+					bad = "the modifier value is split with a limit other than 3"
+				}
+			case "strings.Split", "strings.Fields", "strings.FieldsFunc":
+				n++
+				bad = "the modifier value is split at every ';' (" + clip(u.Show(e), 60) + "): a value that contains ';' itself (TXT records: v=DKIM1;k=rsa) is cut at its first ';', so different values become equal and an exception for one disables the other"
+			case "strings.Cut":
+				n++
+			}
+		}
+		_ = n // cuts at the first and second ';' (strings.Cut, Index + slicing) keep the value whole by construction
+		c.Check(bad == "", "C10.R9", shortFn(ldr)+": RCODE;RRTYPE;VALUE with VALUE kept whole", ldr.Pos(), "SplitN(value, \";\", 3) or two cuts", bad)
+	}
+
+	// ---------- R10: a parser answers with a rewrite or with an error ----------
+	{
+		c.Rule("C10.R10", "PDT", "no $dnsrewrite parser returns (nil, nil): a rule that parsed as a rewrite rule carries a rewrite", 2)
+		for _, fn := range scope {
+			r := fn.Signature.Results()
+			if r.Len() != 2 || typeStr(r.At(0).Type()) != "*rules.DNSRewrite" || typeStr(r.At(1).Type()) != "error" {
+				continue
+			}
+			g := NewGate(c.P)
+			g.Inline = inlineOnly()
+			s := g.Eval(fn)
+			u := g.U
+			bad := ""
+			for _, rt := range s.Rets {
+				if rt.Cond == False || len(rt.Vals) != 2 {
+					continue
+				}
+				for l0, c0 := range u.Leaves(rt.Vals[0]) {
+					for l1, c1 := range u.Leaves(rt.Vals[1]) {
+						cc := u.bdd.And(rt.Cond, u.bdd.And(c0, c1))
+						if cc == False {
+							continue
+						}
+						nilHere := func(l *E) bool {
+							// nil literally, or a value the path condition knows to be nil (an error
+							// variable already tested)
+							return l.IsNil() || (l.Op != "alloc" && l.Op != "new" && l.Op != "mkiface" && u.bdd.Implies(cc, u.ToBool(u.Eq(l, u.mk("nil", "", nil)))))
+						}
+						if nilHere(l0) && nilHere(l1) {
+							bad = c.P.Pos(rt.Pos) + ": returns (nil, nil): the rule is accepted without a rewrite, is not filtered as a rewrite rule and takes part in the block/allow precedence"
+						}
+					}
+				}
+			}
+			c.Check(bad == "", "C10.R10", shortFn(fn)+": rewrite or error", fn.Pos(), "no return site yields a nil rewrite together with a nil error", bad)
+		}
+	}
+
 	// ---------- R4 ----------
 	{
 		res := boundsAudit(c, scope)
